@@ -203,7 +203,7 @@ where
                             if OSC_TERMINATORS.contains(&accu.as_str()) {
                                 break 'param_loop;
                             } else {
-                                param.push(accu.chars().next().unwrap());
+                                param.push_str(&accu);
                             }
                         }
 
@@ -328,7 +328,7 @@ where
                             if OSC_TERMINATORS.contains(&accu.as_str()) {
                                 break 'param_loop;
                             } else {
-                                param.push(accu.chars().next().unwrap());
+                                param.push_str(&accu);
                             }
                         }
 
